@@ -3297,7 +3297,7 @@ def collections_counter():
     return collections.Counter()
 
 
-FAMILY_FILES = ["Tunable/Model.v", "Tunable/Proofs.v", "Tunable/Compare.v"]
+FAMILY_FILES = ["Tunable/Model.v", "Tunable/Proofs.v", "Tunable/Compare.v", "Tunable/SrcTunable.v", "Tunable/SrcTunableProofs.v"]
 
 
 def ensure_built():
@@ -3348,6 +3348,10 @@ def run(ctx):
         "writes are then dropped by ntcore) are not generated; an attribute of a class assigned after an instance was set up is not a bound "
         "tunable of that instance (reads/writes of it raise KeyError on the unchanged library): masked on both sides until the instance is set up again")
     ctx.prove()
+    # the tie to the source: __get__ / __set__ / the body of setup_tunables / the type tables translated from $VERIF_REPO's
+    # magic_tunable.py as it is now (fail-closed) and proved equal to the model's functions (harness/c09_translate.py)
+    from . import c09_translate
+    c09_translate.obligation(ctx)
     try:
         init_clock()
         mt = impl()
